@@ -161,6 +161,12 @@ func c14Program(c *core.Ctx) c14Prog {
 		p.kind = "looping-handler"
 		body.WriteString("on key k:string\n    print \"key\" k\n    for i := range 5\n        acc = acc + i\n    end\n    print \"key done\" acc\nend\non animate t:num\n    print \"anim\" t\n    while true\n        acc = acc + 1\n    end\nend\n")
 		p.events = []evaluator.Event{{Name: "key", Params: []any{"a"}}, {Name: "key", Params: []any{"b"}}, {Name: "animate", Params: []any{1.0}}}
+	case 7:
+		// handlers that finish: the program ends by itself, so it can also run on a platform without yielder
+		p.kind = "finite-handlers"
+		funcs.WriteString("func bump:num n:num\n    return n + 1\nend\n")
+		body.WriteString("on key k:string\n    print \"key\" k\n    for i := range 3\n        acc = (bump acc) + i\n    end\n    sleep 0.001\n    s = s + (read)\n    print \"key done\" acc s\nend\non down x:num y:num\n    print \"down\" x y\n    while acc % 5 != 0\n        acc = bump acc\n    end\n    print \"down done\" acc\nend\n")
+		p.events = []evaluator.Event{{Name: "key", Params: []any{"a"}}, {Name: "down", Params: []any{1.0, 2.0}}, {Name: "key", Params: []any{"b"}}, {Name: "up", Params: []any{1.0, 2.0}}, {Name: "key", Params: []any{"c"}}}
 	}
 	p.src = funcs.String() + body.String()
 	return p
@@ -235,7 +241,7 @@ func c14Run(c *core.Ctx, i int) {
 			c.Violation("density-segment", fmt.Sprintf("segment %d performs %d loop iterations and calls but only %d yields happened between its markers", k, seg.count, yields), p.src, nil)
 		}
 	}
-	if p.kind != "terminating" && p.kind != "looping-handler" && !rec.BudgetHit {
+	if p.kind != "terminating" && p.kind != "looping-handler" && p.kind != "finite-handlers" && !rec.BudgetHit {
 		c.Violation("endless-program-ended", "an endless program ended by itself: "+T.Class+" "+T.ErrText, p.src, nil)
 	}
 	hasTests := strings.Contains(p.src, "test ")
@@ -329,6 +335,46 @@ func c14Run(c *core.Ctx, i int) {
 			continue
 		}
 		break
+	}
+	// a platform without yielder (the CLI platform): the flag is raised inside a platform call or between
+	// Eval and HandleEvent, and must be honoured all the same. Only for programs that end by themselves.
+	if !rec.BudgetHit {
+		N := plat.Run(p.src, plat.Opts{Inputs: inputs, Events: p.events, NoYielder: true})
+		c.Event("no_yielder_runs", 1)
+		if N.Class != T.Class || strings.Join(N.Events, "\n") != strings.Join(T.Events, "\n") {
+			c.Violation("no-yielder:differs", fmt.Sprintf("without a yielder the program behaves differently: %s vs %s; %s", N.Class, T.Class, firstDiff(strings.Join(T.Events, "\n"), strings.Join(N.Events, "\n"))), p.src, nil)
+		} else {
+			lim := len(T.Events)
+			if lim > 40 {
+				lim = 40
+			}
+			for k := 1; k <= lim; k++ {
+				if isSummary(T.Events[k-1]) {
+					continue
+				}
+				c.Event("stop_points", 1)
+				c.Event("stop_without_yielder_points", 1)
+				o := plat.Run(p.src, plat.Opts{Inputs: inputs, Events: p.events, NoYielder: true, StopAtEffect: k, MaxEvents: len(T.Events) + 5})
+				ev := o.Events
+				if len(ev) > 0 && isSummary(ev[len(ev)-1]) {
+					ev = ev[:len(ev)-1]
+				}
+				if len(ev) != k || strings.Join(ev, "\n") != strings.Join(T.Events[:k], "\n") {
+					c.Violation("stop-in-effect:no-yielder", fmt.Sprintf("platform without yielder, stop raised inside effect %d: %d effects happened, result %s", k, len(ev), o.Class), p.src, map[string]any{"stop_at_effect": k})
+					break
+				}
+			}
+			for j := 1; j <= len(T.Rec.EventMarks) && j <= 6; j++ {
+				c.Event("stop_points", 1)
+				c.Event("stop_before_event_points", 1)
+				o := plat.Run(p.src, plat.Opts{Inputs: inputs, Events: p.events, NoYielder: j%2 == 0, StopBeforeEvent: j, MaxEvents: len(T.Events) + 5})
+				want := T.Events[:T.Rec.EventMarks[j-1]]
+				if o.Class != "stopped" || strings.Join(o.Events, "\n") != strings.Join(want, "\n") {
+					c.Violation("stop-before-event", fmt.Sprintf("stop raised before event %d is delivered: result %s, %d effects (expected stopped and the %d effects before the event)", j, o.Class, len(o.Events), len(want)), p.src, map[string]any{"stop_before_event": j})
+					break
+				}
+			}
+		}
 	}
 	if i < 2 {
 		c.Sample(map[string]any{"kind": p.kind, "program": firstN(p.src, 500), "yields": T.Yields, "effects": len(T.Events), "stop_points": len(pts)})
